@@ -131,7 +131,8 @@ def to_model(case, obs):
             continue
         if n == "open":
             tr.fds.append([c[1], True])
-            evs.append("CFs (x_open %d %d)" % (len(tr.fds) - 1, c[1]))
+            mode = {"rw": 3, "r": 1, "w": 2}[c[2] if len(c) > 2 else "rw"]
+            evs.append("CFs (x_open %d %d %d)" % (len(tr.fds) - 1, c[1], mode))
         elif n == "close":
             tr.fds[c[1]][1] = False
             evs.append("CFs (x_close %d)" % c[1])
@@ -237,6 +238,8 @@ def compare(case, obs, model, probes):
                     return "%s: read buffer %s, model %s" % (where, o[2], list(data))
         elif kind == "fs":
             m = o[0] if isinstance(o, list) else o
+            if m == "PermissionDenied":
+                m = [-13, []]
             if not isinstance(m, list):
                 return "%s: synchronous API returned %s, model (%s,%s)" % (where, m, ints[0], list(data))
             if m[0] != ints[0] or list(m[1]) != list(data):
@@ -364,6 +367,9 @@ def oracle(case, obs):
                 if twin == "closed":
                     if res != EBADF:
                         fail("cmd %d: %s on a closed file completed with %d instead of -EBADF" % (ci, e["op"][0], res))
+                elif twin == "PermissionDenied":
+                    if res != EBADF:
+                        fail("cmd %d: ring %s through a descriptor without that access completed with %d; the synchronous API refuses it (PermissionDenied), expected -EBADF" % (ci, e["op"][0], res))
                 elif isinstance(twin, list):
                     if res != twin[0]:
                         fail("cmd %d: ring %s returned %d, the synchronous API returns %d" % (ci, e["op"][0], res, twin[0]))
@@ -419,6 +425,8 @@ def features(case, obs):
                 f.add("cancelled")
             if o[1] == EBADF:
                 f.add("ebadf")
+            if o[3] == "PermissionDenied":
+                f.add("no_access")
             if o[1] == ENOENT:
                 f.add("enoent")
         if c[0] == "next" and o is None:
@@ -502,7 +510,10 @@ def gen_direct(rng, size=None, flavour=None):
             if rng.random() < 0.08:
                 s.append(["sync", ri])
 
-    s.append(["open", rng.randrange(nfiles)])
+    def rand_mode():
+        return rng.choice(["rw"] * 6 + ["r", "w"])
+
+    s.append(["open", rng.randrange(nfiles), rand_mode()])
     fds.append([s[-1][1], True])
     size = size or rng.randrange(10, 45)
     for _ in range(size):
@@ -515,7 +526,7 @@ def gen_direct(rng, size=None, flavour=None):
             if e > 0:
                 rings.append({"depth": pow2ceil(e), "sqn": 0, "alive": True, "out": set(), "queued": []})
         elif x < 0.10 and len(fds) < 5:
-            s.append(["open", rng.randrange(nfiles)])
+            s.append(["open", rng.randrange(nfiles), rand_mode()])
             fds.append([s[-1][1], True])
         elif x < 0.14 and any(f[1] for f in fds):
             k = rng.choice([k for k, f in enumerate(fds) if f[1]])
